@@ -103,9 +103,14 @@ func (f *Font) WidthsMapPDF() map[string]float64 {
 //
 // TODO(voss): remove in favour of FontBBoxPDF
 func (f *Font) FontBBox() (bbox rect.Rect) {
+	// Visit the glyphs in a fixed order: if an outline contains NaN, the
+	// result of Extend depends on the order of the calls.
+	names := maps.Keys(f.Glyphs)
+	sort.Strings(names)
+
 	first := true
-	for _, glyph := range f.Glyphs {
-		thisBBox := glyph.BBox()
+	for _, name := range names {
+		thisBBox := f.Glyphs[name].BBox()
 		if thisBBox.IsZero() {
 			continue
 		}
@@ -122,8 +127,12 @@ func (f *Font) FontBBox() (bbox rect.Rect) {
 // FontBBoxPDF returns the font bounding box in PDF glyph space units.
 // This is the smallest rectangle enclosing all individual glyphs bounding boxes.
 func (f *Font) FontBBoxPDF() (fontBBox rect.Rect) {
+	// Visit the glyphs in a fixed order, see FontBBox.
+	names := maps.Keys(f.Glyphs)
+	sort.Strings(names)
+
 	first := true
-	for glyphName := range f.Glyphs {
+	for _, glyphName := range names {
 		glyphBBox := f.GlyphBBoxPDF(glyphName)
 		if glyphBBox.IsZero() {
 			continue
